@@ -2,6 +2,7 @@ import IwModel.Model.Format
 import IwModel.Lemmas.Format
 import IwModel.Lemmas.KvBlk
 import IwModel.Lemmas.KvNode
+import IwModel.Lemmas.KvChain
 import IwModel.Lemmas.KvLinks
 import IwModel.Lemmas.KvLinksRefine
 import IwModel.Lemmas.KvLinksAudit
@@ -914,5 +915,93 @@ example : KvNode.DbInv true (KvNode.run true none [.put [5] 300 [1], .put [5] 20
     intro op hop
     simp only [List.mem_cons, List.not_mem_nil, or_false] at hop
     rcases hop with e | e | e <;> subst e <;> simp [KvNode.Op.ok])
+
+/-! ### the node clause by induction, any number of nodes: the chain writer `IwModel.KvChain` (split of a full node, removal of an
+emptied node) -/
+
+/-- the empty chain satisfies the chain invariant -/
+theorem chaininv_empty (compound : Bool) : KvChain.ChainInv compound [] := KvChain.chainInv_nil compound
+
+/-- **`_lx_split_addkv` (middle branch) keeps the node invariant on BOTH halves**: a full node satisfying `NodeInv`, a new key that
+`_sblk_find_pi_mm` places at position `idx` inside it — after the records `pi[17..32)` were moved into a new node (`_sblk_addkv2` with
+raw keys, block sized by `sz`, no sync in between), their slots reset (`zidx = pi[17]`, `maxoff` recomputed, `pnum` reduced) and the new
+record added to the upper (`idx > 17`) or lower half, both nodes satisfy `NodeInv` (sorted, duplicate-free slot order = used slots,
+cache of the FIRST key of each half incl. `SBLK_FULL_LKEY`, block geometry incl. room for the index), they hold only keys of the old
+node and the new key, and every key of the lower half sorts before every key of the new node. -/
+theorem split_keeps_nodeinv (compound : Bool) (n : KvNode.Node) (h : KvNode.NodeInv compound n) (hfull : n.pnum = Gen.KVBLK_IDXNUM)
+    (idx : Nat) (k : Bytes) (c : Nat) (hk : k ≠ []) (hc : c < 2 ^ 63) (val : Bytes)
+    (hf : KvNode.Found (fun i => KvNode.cmpOf compound k c (KvNode.keyAt n i)) n.pnum (false, idx)) (o nb : KvNode.Node)
+    (e : KvChain.splitMid n idx (KvNode.cmpOf compound k c) (KvNode.preOf compound c) k val = some (o, nb)) :
+    KvNode.NodeInv compound o ∧ KvNode.NodeInv compound nb ∧
+    (∀ x ∈ KvNode.keys o, x ∈ KvNode.keys n ∨ x = KvChain.skOf compound k c) ∧
+    (∀ x ∈ KvNode.keys nb, x ∈ KvNode.keys n ∨ x = KvChain.skOf compound k c) ∧
+    (∀ x ∈ KvNode.keys o, ∀ y ∈ KvNode.keys nb, KvNode.gtS compound x y) :=
+  KvChain.splitMid_spec h hfull idx k c hk hc val hf o nb e
+
+/-- **`iwkv_put` keeps the chain invariant**, whatever branch of `_lx_addkv` / `_lx_split_addkv` it takes: overwrite, add to the node
+found, add to its upper neighbour, a new node in front of / behind a full node, split of a full node at any position. -/
+theorem chaininv_put (compound : Bool) (ch : KvChain.Chain) (h : KvChain.ChainInv compound ch) (k : Bytes) (c : Nat) (val : Bytes)
+    (hk : k ≠ []) (hc : c < 2 ^ 63) (ch' : KvChain.Chain) (e : KvChain.put compound ch k c val = .ok ch') :
+    KvChain.ChainInv compound ch' := KvChain.chainInv_put h k c val hk hc ch' e
+
+/-- **`iwkv_del` keeps the chain invariant**, including the delete of the last record of a node at the head, in the middle or at the
+tail of the chain (`_lx_del_sblk_lw`: the node leaves the chain). -/
+theorem chaininv_del (compound : Bool) (ch : KvChain.Chain) (h : KvChain.ChainInv compound ch) (k : Bytes) (c : Nat)
+    (ch' : KvChain.Chain) (e : KvChain.del compound ch k c = some ch') : KvChain.ChainInv compound ch' :=
+  KvChain.chainInv_del h k c ch' e
+
+/-- **Every history keeps the chain invariant**: any sequence of puts, deletes, cursor sets and cursor deletes (by key), any number of
+keys, from the empty database. -/
+theorem chaininv_history (compound : Bool) (ops : List KvNode.Op) (hops : ∀ op ∈ ops, op.ok) :
+    KvChain.ChainInv compound (KvChain.run compound [] ops) := KvChain.chainInv_run (KvChain.chainInv_nil compound) ops hops
+
+/-- **(1) After every history every node of the chain satisfies the single-node invariant `NodeInv`** (hence everything
+`nodeinv_spec` says about it). -/
+theorem chain_history_nodeinv (compound : Bool) (ops : List KvNode.Op) (hops : ∀ op ∈ ops, op.ok) :
+    ∀ n ∈ KvChain.run compound [] ops, KvNode.NodeInv compound n := (chaininv_history compound ops hops).nodes
+
+/-- **(2) Chain order.** After every history: no node is empty, no node holds more than `KVBLK_IDXNUM` records, for nodes `a` before `b`
+in the chain every key of `a` sorts before every key of `b` (descending key order across nodes), and the keys of all nodes in chain
+order form one strictly sorted, hence duplicate-free, sequence. -/
+theorem chain_history_order (compound : Bool) (ops : List KvNode.Op) (hops : ∀ op ∈ ops, op.ok) :
+    (∀ n ∈ KvChain.run compound [] ops, 0 < n.pnum ∧ n.pnum ≤ Gen.KVBLK_IDXNUM ∧ n.pnum = (KvNode.keys n).length) ∧
+    (KvChain.run compound [] ops).Pairwise (fun a b => ∀ x ∈ KvNode.keys a, ∀ y ∈ KvNode.keys b, KvNode.gtS compound x y) ∧
+    ((KvChain.run compound [] ops).flatMap KvNode.keys).Pairwise (KvNode.gtS compound) := by
+  have h := chaininv_history compound ops hops
+  refine ⟨fun n hn => ⟨(h.nodes n hn).pos, (h.nodes n hn).le32, by rw [(h.nodes n hn).pnum]; simp [KvNode.keys]⟩, h.order, ?_⟩
+  rw [List.pairwise_flatMap]
+  exact ⟨fun n hn => (h.nodes n hn).sorted, h.order⟩
+
+/-- **(4) After every history every node of the chain passes the node part of the audit**: the image of each model node (fields as the
+model has them, its block the model block) in a valid page slot has no `nodeErrs` complaint — not empty, page slot, slot geometry,
+cached key = prefix of the first key, full-key flag, keys well-formed and descending (`nodeinv_audit` on each node of the chain; the
+model chain is compared node by node with the real file after every operation by `drv kvchain`). -/
+theorem chain_history_audit (compound : Bool) (ops : List KvNode.Op) (hops : ∀ op ∈ ops, op.ok) (d : DbImg)
+    (hd : KvApi.isCompound d.flags = compound) (hm : KvApi.modeOf d.flags = .plain) :
+    ∀ n ∈ KvChain.run compound [] ops, ∀ blk kblk bpos, 1 ≤ bpos ∧ bpos ≤ Gen.SBLK_PAGE_SBLK_NUM_V2 →
+      nodeErrs d none [nodeImg n blk kblk bpos] = [] :=
+  fun n hn blk kblk bpos hb => nodeinv_audit compound n (chain_history_nodeinv compound ops hops n hn) d hd hm blk kblk bpos hb
+
+/-- the pivot of the split and the side conditions the split lemmas use are those of the generated constants -/
+example : KvChain.pivot = 17 ∧ Gen.KVBLK_IDXNUM = 32 ∧ Gen.KVBLK_MAX_NKV_SZ = Gen.KVBLK_HDRSZ + Gen.KVBLK_MAX_IDX_SZ ∧
+    Gen.KVBLK_MAX_IDX_SZ = 13 * Gen.KVBLK_IDXNUM ∧ Gen.IWKV_MAX_KVSZ < 2 ^ 28 := by decide
+
+/-- non-vacuity: the preconditions of `chaininv_history` hold for any history of puts with non-empty keys -/
+example (ks : List Bytes) (hks : ∀ k ∈ ks, k ≠ []) :
+    KvChain.ChainInv false (KvChain.run false [] (ks.map fun k => KvNode.Op.put k 0 [1])) :=
+  chaininv_history false _ (by
+    intro op hop
+    obtain ⟨k, hk, e⟩ := List.mem_map.1 hop
+    subst e
+    exact ⟨hks k hk, by decide⟩)
+
+set_option maxRecDepth 1000000 in
+/-- non-vacuity: a concrete history on the chain model. 33 ascending keys: every key goes in front of the first key until the node is full,
+the 33rd makes a new node in front of it (`uside` of the database block); key 20 then falls at position 22 of the full node: middle split,
+the records 17..31 move into a new node (slots 0..14 in order), the new record joins them; `pnum`, slot order and cached first keys of the
+three nodes as the C code leaves them. -/
+example : (KvChain.run false [] (((List.range 33).map fun i => KvNode.Op.put [i * 2 + 1] 0 [i]) ++ [KvNode.Op.put [20] 0 [7]])).map
+    (fun n => (n.pnum, n.pi.take 3, n.lkl, KvNode.lkLive n)) =
+    [(1, [0], 1, [65]), (17, [31, 30, 29], 1, [63]), (16, [0, 1, 2], 1, [29])] := by decide
 
 end IwModel.C06
